@@ -5,7 +5,7 @@ base = json.load(open(sys.argv[1]))
 seen = {p["import"] for p in base["packages"]}
 def add(imp):
     if imp not in seen:
-        seen.add(imp); base["packages"].append({"import": imp})
+        seen.add(imp); base["packages"].append({"import": imp, "nomaps": True})
 for d in sorted(os.listdir("/verif/mc/worlds")):
     if os.path.isdir(os.path.join("/verif/mc/worlds", d)):
         add("verif/mc/worlds/" + d)
